@@ -1,6 +1,13 @@
 package checks
 
 import (
+	"os"
+	"path/filepath"
+	"regexp"
+	"strconv"
+	"strings"
+	"time"
+
 	"verif/core"
 	"verif/specgen"
 )
@@ -42,6 +49,12 @@ func C14(r *core.Run) int {
 		return r.Finish(nil, nil)
 	}
 	s := Summarize(r, res, nil)
+	fuzzExecs, fuzzPkgs := 0, 0
+	if r.Thorough() {
+		fuzzExecs, fuzzPkgs = nativeFuzz(r, res, 6, "300000x")
+	} else if os.Getenv("VERIF_C14_FUZZ") != "" {
+		fuzzExecs, fuzzPkgs = nativeFuzz(r, res, 2, "20000x")
+	}
 	if s.Stats["requests"] < 100000 {
 		r.Inconclusive("only %d requests", s.Stats["requests"])
 	}
@@ -52,14 +65,58 @@ func C14(r *core.Run) int {
 		}
 	}
 	cov := map[string]any{
-		"evaluations":         s.Stats["requests"],
-		"distinct_nontrivial": len(s.Distinct),
-		"rule":                "one evaluation = one hostile request (any method string, truncated / doubled-slash / near-miss / huge / non-UTF-8 paths, garbage and huge query strings, header multimaps incl. every Authorization shape, bodies: empty, truncated, deeply nested, 1 MiB, invalid UTF-8, failing reader) served by a fully populated generated API whose handlers call Parse(), drain raw bodies and return a random documented response; authenticators all nil / all installed / mixed; monitors: recover() around ServeHTTP and around Parse(), counting ResponseWriter (exactly one response); distinct = (spec, operation) pairs attacked",
-		"samples":             samples,
-		"packages_driven":     s.Ran,
-		"not_generated":       s.NotGen,
-		"not_runnable":        s.NotRunnable,
-		"event_counts":        s.Stats,
+		"evaluations":          s.Stats["requests"],
+		"distinct_nontrivial":  len(s.Distinct),
+		"rule":                 "one evaluation = one hostile request (any method string, truncated / doubled-slash / near-miss / huge / non-UTF-8 paths, garbage and huge query strings, header multimaps incl. every Authorization shape, bodies: empty, truncated, deeply nested, 1 MiB, invalid UTF-8, failing reader) served by a fully populated generated API whose handlers call Parse(), drain raw bodies and return a random documented response; authenticators all nil / all installed / mixed; monitors: recover() around ServeHTTP and around Parse(), counting ResponseWriter (exactly one response); distinct = (spec, operation) pairs attacked",
+		"samples":              samples,
+		"packages_driven":      s.Ran,
+		"not_generated":        s.NotGen,
+		"not_runnable":         s.NotRunnable,
+		"event_counts":         s.Stats,
+		"native_fuzz_packages": fuzzPkgs,
+		"native_fuzz_execs":    fuzzExecs,
 	}
 	return r.Finish(cov, []string{"requests obey the net/http server contract (Body non-nil)", "every handler field set; authenticators may be nil"})
+}
+
+var fuzzExecRe = regexp.MustCompile(`execs: (\d+)`)
+
+// nativeFuzz runs Go's coverage-guided fuzzer (FuzzVerif in every driven
+// package) on the first n runnable packages, bounded by execution count.
+func nativeFuzz(r *core.Run, res []*DriverResult, n int, fuzztime string) (int, int) {
+	execs, pkgs := 0, 0
+	for _, dr := range res {
+		if !dr.Ran || pkgs >= n {
+			continue
+		}
+		pkgs++
+		root := filepath.Dir(filepath.Dir(dr.G.P.Out))
+		out, err := core.RunCmd(root, 30*time.Minute, nil, "go", "test", "-vet=off", "-run", "^$", "-fuzz", "^FuzzVerif$", "-fuzztime", fuzztime, "./g/"+filepath.Base(dr.G.P.Out))
+		last := 0
+		for _, m := range fuzzExecRe.FindAllStringSubmatch(out, -1) {
+			last, _ = strconv.Atoi(m[1])
+		}
+		execs += last
+		if err != nil {
+			msg := "native fuzzing failed"
+			for _, l := range strings.Split(out, "\n") {
+				if i := strings.Index(l, "VERIF-VIOLATION"); i >= 0 {
+					msg = strings.TrimSpace(l[i+len("VERIF-VIOLATION"):])
+					break
+				}
+			}
+			input := ""
+			if fs, _ := filepath.Glob(filepath.Join(dr.G.P.Out, "testdata", "fuzz", "FuzzVerif", "*")); len(fs) > 0 {
+				if bs, e := os.ReadFile(fs[0]); e == nil {
+					input = string(bs)
+				}
+			}
+			if strings.Contains(out, "VERIF-VIOLATION") {
+				r.Report(core.Violation{Case: dr.G.P.Case.ID, Class: "panic", Message: "native fuzzing: " + core.Trunc(msg, 200), Input: input, Observed: core.Trunc(out, 3000), Spec: string(dr.G.P.Case.SpecBytes())})
+			} else {
+				r.Note("native fuzzing of %s did not complete: %s", dr.G.P.Case.ID, core.Trunc(out, 300))
+			}
+		}
+	}
+	return execs, pkgs
 }
